@@ -12,7 +12,10 @@ BOUND = ("networks with <= 6 variables (1-variable exhaustive, sampled 2-variabl
          "attractor-seed expansion; (c) a limited prefix followed by skip_remaining / skip_to_minimal on every stub / minimal-space expansion with "
          "skip_ignored; (d) networks whose diagram has depth >= 2 (unions of 2-3 bistable modules, nested switches, latch DAGs): an earlier partial expansion "
          "(level-limited bfs, stack-limited dfs, manual single-node expansions, minimal-space / attractor-seed expansion) followed by a bfs from the root whose level "
-         "limit (0..2) is SHALLOWER than what is already expanded - whatever it returns, True claims completion")
+         "limit (0..2) is SHALLOWER than what is already expanded - whatever it returns, True claims completion; (e) 2-4 independent bistable modules (switch, toggle, "
+         "set/reset pair) with an optional downstream latch / gated oscillator, and the networks of (d): a limited prefix (bfs with level limit 0..3, dfs with stack limit 0..4, "
+         "size-limited bfs / minimal-space / attractor-seed expansion, manual single-node expansions) followed by dfs with stack limit 0..4 or by attractor-seed expansion "
+         "with size limit 1..8 (seeded: 1..12) - True claims completion")
 RULE = "non-trivial = the network has at least two minimal trap spaces or the full reference diagram has at least 3 nodes"
 CASE_TIMEOUT = 60.0
 
@@ -39,9 +42,23 @@ def shape_cases(seed, tier):
             yield {"net": name, "bnet": bnet, "prefix": pre, "final": ["bfs", None, final[2], None]}
 
 
+def limit_cases(seed, tier):
+    """(e): several independent bistable modules x 'limited prefix, then a stack-limited dfs / a size-limited attractor-seed expansion'."""
+    fixed = families.limited_dfs_histories() + families.limited_aseeds_histories()
+    for k, (name, bnet) in enumerate(families.interleave((families.limit_nets(seed, tier), 1), (families.deep_nets(seed, tier), 1))):
+        names = families.variables(bnet)
+        if name in families.LIMIT_NETS:
+            picks = fixed
+        else:
+            rng = random.Random(f"{seed}-{name}-c03-limited")
+            picks = [fixed[(k * 11 + j * 37) % len(fixed)] for j in range(4)] + [families.random_limited_history(rng, names)]
+        for pre, final in picks:
+            yield {"net": name, "bnet": bnet, "prefix": pre, "final": final}
+
+
 def cases(seed, tier):
-    # shape family interleaved 1:4 with the general family (its ~170 fixed cases are all handed out within the first ~900 cases)
-    yield from families.interleave((shape_cases(seed, tier), 1), (general_cases(seed, tier), 4))
+    # shape families interleaved 1:1:4 with the general family (the fixed cases of (d) are all handed out within the first ~1000 cases, those of (e) within ~4000)
+    yield from families.interleave((shape_cases(seed, tier), 1), (limit_cases(seed, tier), 1), (general_cases(seed, tier), 4))
 
 
 def general_cases(seed, tier):
